@@ -122,17 +122,40 @@ Lemma example_make_instance :
   make_instance (final h_initvar) 3 [(4, 1%Z)] = None /\
   inst_value (s_var (decls h_initvar) 3 0) 0 [(0, 5%Z)] = Some (Some 5%Z).
 Proof. vm_compute. repeat split. Qed.
-(* the code keeps :inittable-instance-variables and :required-init-keywords per flavor: they are not inherited *)
+(* REPAIRED (repo_fixes/C11-4, C11-5): :inittable-instance-variables and :required-init-keywords are inherited.
+   The two witnesses of the former findings are inside g_init now and make-instance answers what s_make demands;
+   [before_io] is the code before these two patches (the options were kept per flavor). *)
+Definition before_io : version := {| v_insert := true; v_vanilla := true; v_bound := true; v_io := false |}.
 Definition h_inits : list form :=
   [DFlavor 1 [(0, Some 1%Z)] [] E0 AccNone AccNone {| io_inits := AccList [0]; io_reqs := [] |};
    DFlavor 2 [(1, Some 2%Z)] [1] E0 AccNone AccNone {| io_inits := AccList [1]; io_reqs := [] |}].
-Lemma initable_not_inherited :
-  wf h_inits = true /\ make_instance (final h_inits) 2 [(0, 5%Z)] = None /\
-  s_make (decls h_inits) 2 [(0, 5%Z)] = Some ([(0, 5%Z)], []) /\ g_init (decls h_inits) 2 [(0, 5%Z)] = false.
+Lemma initable_inherited_example :
+  wf h_inits = true /\ g_init (decls h_inits) 2 [(0, 5%Z)] = true /\
+  make_instance (final h_inits) 2 [(0, 5%Z)] = Some ([(0, 5%Z)], []) /\
+  s_make (decls h_inits) 2 [(0, 5%Z)] = Some ([(0, 5%Z)], []).
+Proof. vm_compute. repeat split. Qed.
+Lemma initable_not_inherited_original :
+  make_instance (fst (run before_io init h_inits)) 2 [(0, 5%Z)] = None /\
+  s_make (decls h_inits) 2 [(0, 5%Z)] = Some ([(0, 5%Z)], []).
 Proof. vm_compute. repeat split. Qed.
 Definition h_reqs : list form :=
   [DFlavor 1 E0 [] [(2, None)] AccNone AccNone {| io_inits := AccNone; io_reqs := [2] |}; DFlavor 2 E0 [1] E0 AccNone AccNone io0].
-Lemma required_not_inherited :
-  wf h_reqs = true /\ make_instance (final h_reqs) 2 [] = Some ([], []) /\ make_instance (final h_reqs) 1 [] = None /\
-  s_make (decls h_reqs) 2 [] = None /\ g_init (decls h_reqs) 2 [] = false.
+Lemma required_inherited_example :
+  wf h_reqs = true /\ g_init (decls h_reqs) 2 [] = true /\
+  make_instance (final h_reqs) 2 [] = None /\ make_instance (final h_reqs) 1 [] = None /\
+  make_instance (final h_reqs) 2 [(2, 4%Z)] = Some ([], [(2, 4%Z)]) /\ s_make (decls h_reqs) 2 [] = None.
+Proof. vm_compute. repeat split. Qed.
+Lemma required_not_inherited_original :
+  make_instance (fst (run before_io init h_reqs)) 2 [] = Some ([], []) /\ make_instance (fst (run before_io init h_reqs)) 1 [] = None /\
+  s_make (decls h_reqs) 2 [] = None.
+Proof. vm_compute. repeat split. Qed.
+(* what is left outside g_init: a bare (:inittable-instance-variables) on a flavor WITHOUT variables leaves the
+   inherited set empty, which the code reads as "every variable" (len(cf.initable) == 0), although a flavor of
+   the precedence list has the option and none lists the variable *)
+Definition h_bare : list form :=
+  [DFlavor 1 E0 [] E0 AccNone AccNone {| io_inits := AccAll; io_reqs := [] |};
+   DFlavor 2 [(1, Some 2%Z)] [1] E0 AccNone AccNone io0].
+Lemma bare_inittable_on_varless_flavor :
+  wf h_bare = true /\ g_init (decls h_bare) 2 [(1, 5%Z)] = false /\
+  make_instance (final h_bare) 2 [(1, 5%Z)] = Some ([(1, 5%Z)], []) /\ s_make (decls h_bare) 2 [(1, 5%Z)] = None.
 Proof. vm_compute. repeat split. Qed.
